@@ -33,6 +33,18 @@ class _RecFile:
 
     def write(self, data):
         b = data if isinstance(data, (bytes, bytearray, memoryview)) else data.encode("utf-8")
+        at = self._rec.events._abort_at
+        if at is not None and at[1] == "mid" and len(self._rec.events) == at[0] and not self._rec.aborted:
+            # interruption in the middle of this write: half of it makes it out
+            half = data[: len(data) // 2]
+            self._real.write(half)
+            self._real.flush()
+            hb = half if isinstance(half, (bytes, bytearray, memoryview)) else half.encode("utf-8")
+            self._rec.events._abort_at = None
+            list.append(self._rec.events, ("write", self._path, bytes(hb)))
+            self._rec.aborted = True
+            self._rec.aborted_on = ("write-mid", os.path.basename(self._path))
+            self._rec.events._raise()
         self._rec.events.append(("write", self._path, bytes(b)))
         return self._real.write(data)
 
@@ -41,9 +53,14 @@ class _RecFile:
         return self._real.flush()
 
     def close(self):
-        if not self._real.closed:
-            self._rec.events.append(("close", self._path))
-        return self._real.close()
+        if self._real.closed:
+            return None
+        # close for real first: an interruption injected at this event arrives
+        # right after the close (an open, half-flushed file object would be
+        # finalised by the garbage collector at an unpredictable later moment)
+        r = self._real.close()
+        self._rec.events.append(("close", self._path))
+        return r
 
     def __enter__(self):
         return self
@@ -101,15 +118,14 @@ class _AbortingList(list):
         at = self._abort_at
         if at is not None and len(self) == at[0] and not self._rec.aborted:
             self._rec.aborted = True
-            if at[1] == "mid" and ev[0] == "write":
-                half = ev[2][: len(ev[2]) // 2]
-                with builtins.open(ev[1], "ab") as f:  # the prefix that made it out
-                    f.write(half)
-                super().append(("write", ev[1], half))
-            if self._abort_exc == "enospc":
-                raise OSError(28, "No space left on device (injected)")
-            raise SaveAborted()
+            self._rec.aborted_on = (ev[0], os.path.basename(ev[1]) if len(ev) > 1 and isinstance(ev[1], str) else None)
+            self._raise()
         super().append(ev)
+
+    def _raise(self):
+        if self._abort_exc == "enospc":
+            raise OSError(28, "No space left on device (injected)")
+        raise SaveAborted()
 
 class Recorder:
     def __init__(self, ropedir, abort_at=None, abort_exc="interrupt"):
@@ -120,11 +136,11 @@ class Recorder:
 
     def open(self, file, mode="r", *a, **kw):
         path = os.path.realpath(os.fspath(file))
-        real = builtins.open(file, mode, *a, **kw)
         if any(c in mode for c in "wax+"):
+            # event first: an interruption injected here arrives before the open
             self.events.append(("open", path, mode))
-            return _RecFile(self, path, mode, real)
-        return real
+            return _RecFile(self, path, mode, builtins.open(file, mode, *a, **kw))
+        return builtins.open(file, mode, *a, **kw)
 
     def __enter__(self):
         import rope.base.project as rp
@@ -360,7 +376,8 @@ class CrashSaveEngine(Engine):
                     verdict = self._recover(out, W, ropedir, files, label, accept_h, accept_o, modules, prefs, limit,
                                             liveness=(n_ab % 3 == 0))
                     out.log.add(ev="abort", label=label, raised=type(raised).__name__ if raised else None,
-                                state=key[:12], verdict=verdict)
+                                state=key[:12], verdict=verdict, on=getattr(rec2, "aborted_on", None), n_after=len(rec2.events),
+                                files={k: [len(v), hashlib.sha256(v).hexdigest()[:8]] for k, v in sorted(files.items())})
             out.stats["abort_states"] += n_ab
             _write_dir(ropedir, post)
             out.schedules.add(kernel.short_hash([e[0] for e in events]))
